@@ -20,7 +20,7 @@ Tampers == {"none",
             "address", "address_unknown", "workchain", "addr_bad_hex", "addr_friendly",
             "domain", "domain_foreign", "domain_swapped", "timestamp",
             "payload", "payload_foreign_secret", "payload_short", "payload_long", "payload_bad_hex", "payload_mac_flip",
-            "si_other", "si_unknown_code", "si_no_code", "si_no_data", "si_no_code_no_data", "si_short_data",
+            "si_other", "si_attacker", "si_unknown_code", "si_no_code", "si_no_data", "si_no_code_no_data", "si_short_data",
             "si_multi_root", "si_garbage", "si_truncated", "si_bad_b64", "si_empty"}
 
 Honest(src, ver, time) ==
@@ -53,6 +53,8 @@ Apply(t, f, src) ==
     [] t \in {"payload_foreign_secret", "payload_mac_flip"} -> [f EXCEPT !.plMac = FALSE]
     [] t \in {"payload_short", "payload_long", "payload_bad_hex"} -> [f EXCEPT !.plWf = FALSE]
     [] t = "si_other" -> [f EXCEPT !.siHash = FALSE, !.siKey = "other", !.sigSi = FALSE]
+    \* the attack the hash check is there for: somebody else's address, the attacker's own wallet state-init and signature
+    [] t = "si_attacker" -> [f EXCEPT !.siHash = FALSE, !.siKey = "other", !.sigChain = FALSE]
     [] t = "si_unknown_code" -> [NoKey(f) EXCEPT !.siWallet = "unknown"]
     [] t = "si_no_code" -> [f EXCEPT !.siCode = FALSE]
     [] t = "si_no_data" -> [f EXCEPT !.siData = FALSE]
